@@ -284,6 +284,38 @@ example : feedPayloads [] ((exampleFlight.take 1).map fun p => encodeItems p.1 p
   rw [extractSni_complete exampleHello exampleHello_wf]
   decide
 
+/-- **The long-header walk finds the packet.** For every Initial long header a client can emit (any
+connection-id and token lengths, any varint widths, v1/v2 type bits) followed by its protected part
+and anything after it in the datagram, `sniffQuicBlock`'s header walk yields exactly the
+packet-number offset, the end of the packet and the destination connection id. -/
+theorem quic_header_walk_roundtrip (h : InitialHdr) (len : Nat) (body rest : Bytes) (hwf : h.WF len)
+    (hb : body.length = len) :
+    quicHeader (encodeHdr h len ++ (body ++ rest))
+      = some ((encodeHdr h len).length, (encodeHdr h len).length + len, h.dcid) :=
+  quicHeader_encode h len body rest hwf hb
+
+example : (⟨0xc3, 0, 0, 0, 1, [1, 2, 3, 4, 5, 6, 7, 8], [], [9, 9], 0, 1⟩ : InitialHdr).WF 1180 := by
+  refine ⟨by decide, by decide, ⟨by decide, by decide⟩, ⟨by decide, by decide⟩, by decide⟩
+
+/-- **Datagram → header walk → unprotect (oracle) → CRYPTO reassembly → name**, for an Initial
+datagram that carries the whole ClientHello in one packet (any framing inside the packet): the
+packet sniffer's first `SniffUdp` answers the carried name through `NormalizeDomain` ("not found"
+when there is none) and does not ask for more datagrams.
+`_partial`: flights spread over several packets/datagrams are covered on the plaintext level by
+`quic_flight_found` and by the tie, not by a packet-level theorem (missing: "an answer obtained
+before the last datagram equals the final one", and the `nextRead`/coalescing bookkeeping). -/
+theorem quic_datagram_found_partial (ch : ClientHello) (hwf : ch.WF) (items : List Item) (tp : Nat)
+    (hfit : ∀ it ∈ items, it.frame.Fits)
+    (hw : ∀ b ∈ cryptoBlocks items, Within (handshake ch) b)
+    (hcov : ∀ q, q < (handshake ch).length → ∃ b ∈ cryptoBlocks items, covers b q)
+    (h : InitialHdr) (len : Nat) (body : Bytes) (hh : h.WF len) (hb : body.length = len)
+    (oracle : List Sealed)
+    (horc : oracleLookup oracle 0 (encodeHdr h len).length ((encodeHdr h len).length + len) h.dcid
+      = some (encodeItems items tp)) :
+    ((({} : Pkt).append (encodeHdr h len ++ body)).sniffUdp oracle).1 = udpAnswer ch ∧
+    ((({} : Pkt).append (encodeHdr h len ++ body)).sniffUdp oracle).2.needMore = false :=
+  sniffUdp_single_packet ch hwf items tp hfit hw hcov h len body hh hb oracle horc
+
 /-- **A final answer is never withheld.** After `SniffUdp`, the flow is asked to wait for more
 datagrams only while the ClientHello is still incomplete: once the reassembled CRYPTO stream holds
 the whole handshake message, "not found" (or any other failure) is final and the buffered
